@@ -851,8 +851,18 @@ class Database:
 
         # set the spatialLocators on each component
         if location is not None:
+            # coordinate locations come back as a tuple of floats; index locations as ints
+            isCoordinate = isinstance(location, tuple) and any(
+                isinstance(i, float) for i in location
+            )
             if parent is not None and parent.spatialGrid is not None:
-                comp.spatialLocator = parent.spatialGrid[location]
+                if isCoordinate:
+                    # a free coordinate within the parent's grid, not one of its cells
+                    comp.spatialLocator = grids.CoordinateLocation(
+                        location[0], location[1], location[2], parent.spatialGrid
+                    )
+                else:
+                    comp.spatialLocator = parent.spatialGrid[location]
             else:
                 comp.spatialLocator = grids.CoordinateLocation(
                     location[0], location[1], location[2], None
